@@ -106,13 +106,17 @@ class Sandbox:
 def gen_body(rng, sb, fidx, home):
     """-> (.qmail text, {program command -> exit code}, set of failing file targets)"""
     n = rng.choice([0, 1, 1, 2, 2, 3, 3, 4, 4, 5, 6, 7])
+    big = rng.random() < 0.04
+    if big:
+        n = rng.choice([40, 120])        # a control file far larger than any of qmail-local's buffers
     lines, exits = [], {}
     for k in range(n):
         r = rng.random()
         blanks = rng.choice([b"", b"", b"", b" ", b"\t", b"  \t "])
         tag = "f%dl%d" % (fidx, k)
         if r < 0.08:
-            lines.append(rng.choice([b"# comment", b"#", b"#|not a program", b"# &nobody@x.test"]) + blanks)
+            lines.append(rng.choice([b"# comment", b"#", b"#|not a program", b"# &nobody@x.test"]) +
+                         (b" x" * rng.choice([100, 511, 512, 2000]) if (big or rng.random() < 0.05) else b"") + blanks)
         elif r < 0.14:
             lines.append(rng.choice([b"", b" ", b"\t \t"]))
         elif r < 0.45:
